@@ -50,3 +50,4 @@ def cases(tier, seed, ctx=None):
         yield ("lauth", [ops, [17]], "history")
     yield ("lauth", [[[0, 0o022, 0], [3, [[b"X-Auth-Token", b"<TOKEN>"]]], [4]], [17]], "basic")
     yield ("lauth_unique", [20 if tier == "quick" else 200], "unique")
+    yield ("lauth_unique", [5, 3 if tier == "quick" else 6], "unique-across-processes")
